@@ -23,8 +23,12 @@ ops (strings are hex of UTF-8, `-` = empty string; `-` in a register position = 
     sample <thread> <ns> <stack|-> <cpuZero01>        samesample <thread> <ns>
     allocsample <thread> <ns> <stack|-> foreign=<01>   (foreign=1: thread is not the first thread of its
                                                         process and a stack is passed — the known finding)
-    mtype <dst> <typeNameHex> <cat> <formats|->        formats over u (unique-string) s (other string) n (number)
-    marker <dst> <thread> <st:k|rt:mtype> <nameStr> <str>*     one <str> per string-kind field
+    mtype <dst> <typeNameHex> <cat> <formats|->        one letter per field, all 14 `MarkerFieldFormat`s:
+        u String ("unique-string")  U|s Url  P FilePath  Z SanitizedString  (string kinds)
+        D Duration T Time S Seconds M Milliseconds C Microseconds N Nanoseconds B Bytes p Percentage
+        i|n Integer d Decimal  (number kinds)
+    marker <dst> <thread> <st:k|rt:mtype>[:<i|v|s|e>] <nameStr> <str>*     one <str> per string-kind field;
+        timing i = Instant (default), v = Interval, s = IntervalStart, e = IntervalEnd
     mstack <thread> <marker> <stack|->
     counter <dst> <proc>       csample <counter> <ns>          visible <thread>       selected <thread>
 
@@ -65,10 +69,29 @@ def hexOf (s : String) : String := bytesHex s.toUTF8.toList
 def akind? (s : String) : Option AKind :=
   if s = "ip" then some .ip else if s = "ra" then some .ra else if s = "ara" then some .ara else none
 
+/-- one letter per `MarkerFieldFormat` -/
+def mformat? (c : Char) : Option MFormat :=
+  if c = 'u' then some .string else if c = 'U' || c = 's' then some .url else if c = 'P' then some .filePath
+  else if c = 'Z' then some .sanitizedString else if c = 'D' then some .duration else if c = 'T' then some .time
+  else if c = 'S' then some .seconds else if c = 'M' then some .milliseconds else if c = 'C' then some .microseconds
+  else if c = 'N' then some .nanoseconds else if c = 'B' then some .bytes else if c = 'p' then some .percentage
+  else if c = 'i' || c = 'n' then some .integer else if c = 'd' then some .decimal else none
+
+/-- the field kinds of a format word (through the model's `MFormat.fmt` = `kind()` + the `== String` test) -/
 def fmts? (s : String) : Option (List Fmt) :=
   if s = "-" then some [] else
-  s.toList.mapM (fun c => if c = 'u' then some Fmt.u else if c = 's' then some Fmt.s
-    else if c = 'n' then some Fmt.n else none)
+  s.toList.mapM (fun c => (mformat? c).map MFormat.fmt)
+
+def timing? (s : String) : Option MTiming :=
+  if s = "i" then some .instant else if s = "v" then some .interval else if s = "s" then some .intervalStart
+  else if s = "e" then some .intervalEnd else none
+
+/-- `st:k[:tm]` / `rt:reg[:tm]` → (tag, argument, timing) -/
+def mtypeTok? (ty : String) : Option (String × String × MTiming) :=
+  match ty.splitOn ":" with
+  | [tag, a] => some (tag, a, .instant)
+  | [tag, a, tm] => (timing? tm).map (fun tm => (tag, a, tm))
+  | _ => none
 
 def syms? (ws : List String) : Option (List Sym) :=
   ws.mapM (fun w =>
@@ -180,9 +203,9 @@ def checkLine (c : Chk) (w : List String) : Option Chk :=
     pure { c' with fmts := (d, f) :: c'.fmts }
   | "marker" :: d :: t :: ty :: nm :: strs => do
     c.is t .thread
-    let f ← (match ty.splitOn ":" with
-      | ["st", k] => (num? k).bind staticFormats
-      | ["rt", r] => (c.is r .mtype).bind (fun _ => lookupS c.fmts r)
+    let f ← (match mtypeTok? ty with
+      | some ("st", k, _) => (num? k).bind staticFormats
+      | some ("rt", r, _) => (c.is r .mtype).bind (fun _ => lookupS c.fmts r)
       | _ => none)
     c.is nm .str
     guard' (strs.length = stringFields f)
@@ -277,11 +300,11 @@ def toOp (r : Regs) (w : List String) : Option (Op × Option (String × Kind)) :
   | ["mtype", d, n, ca, f] => do pure (.markerType (← unhexStr? n) (← r.cat ca) (← fmts? f), some (d, .mtype))
   | "marker" :: d :: t :: ty :: nm :: strs => do
     let t ← r.thread t
-    let ty ← (match ty.splitOn ":" with
-      | ["st", k] => (num? k).map MType.static
-      | ["rt", k] => (r.mtype k).map MType.runtime
+    let (ty, tm) ← (match mtypeTok? ty with
+      | some ("st", k, tm) => (num? k).map (fun k => (MType.static k, tm))
+      | some ("rt", k, tm) => (r.mtype k).map (fun h => (MType.runtime h, tm))
       | _ => none)
-    pure (.marker t ty (← r.str nm) (← strs.mapM r.str), some (d, .marker))
+    pure (.marker t ty (← r.str nm) (← strs.mapM r.str) tm, some (d, .marker))
   | ["mstack", t, m, st] => do pure (.markerStack (← r.thread t) (← r.marker m) (← r.optStack st), none)
   | ["counter", d, p] => do pure (.counter (← r.proc p), some (d, .counter))
   | ["csample", ct, _] => do pure (.counterSample (← r.counter ct), none)
@@ -375,6 +398,9 @@ def showThread (t : SerThread) : List String :=
       | some (len, cols, st) => [line "NA" (toString len :: nats cols), line "NA.stack" (opts st)])
   ++ [ line "MK" (toString t.mkLen :: nats t.mkCols), line "MK.cat" (nats t.mkCat), line "MK.name" (nats t.mkName),
        line "MK.stack" (opts t.mkStack),
+       line "MK.start" (t.mkStart.map (fun b => if b then "1" else "0")),
+       line "MK.end" (t.mkEnd.map (fun b => if b then "1" else "0")),
+       line "MK.phase" (nats t.mkPhase),
        line "MK.ustr" (t.mkUstr.map (fun iv => s!"{iv.1}:{iv.2}")) ]
 
 def showProfile (s : SerProfile) : List String :=
@@ -429,6 +455,8 @@ structure SMarker where
   cat : String × Nat
   stack : StackDesc
   ustr : List String
+  /-- is a start / an end time stored, numeric phase — from the `MarkerTiming` the caller passed -/
+  timing : Bool × Bool × Nat := (true, false, 0)
 deriving DecidableEq
 
 structure SThread where
@@ -737,10 +765,16 @@ def Spec.step (s : Spec) (n : Nat) (w : List String) (out : String) : Spec :=
     | some c, some f => let (s, go) := s.outcome n out false false; if go then s.setReg d (.mtype c f) else s
     | _, _ => skipped s
   | "marker" :: d :: t :: ty :: nm :: strs =>
-    let tyInfo : Option ((String × Nat) × List Fmt) := match ty.splitOn ":" with
-      | ["st", k] => ((num? k).bind staticSchema).map (fun sc => ((sc.2.1, sc.2.2.1), sc.2.2.2))
-      | ["rt", r] => match s.reg r with | some (.mtype c f) => some (c, f) | _ => none
+    let tyInfo : Option ((String × Nat) × List Fmt) := match mtypeTok? ty with
+      | some ("st", k, _) => ((num? k).bind staticSchema).map (fun sc => ((sc.2.1, sc.2.2.1), sc.2.2.2))
+      | some ("rt", r, _) => match s.reg r with | some (.mtype c f) => some (c, f) | _ => none
       | _ => none
+    -- specification side of `MarkerTiming`: Instant = start only, phase 0; Interval = both, 1;
+    -- IntervalStart = start only, 2; IntervalEnd = end only, 3
+    let tmw : String := ((ty.splitOn ":")[2]?).getD "i"
+    let timing : Bool × Bool × Nat :=
+      if tmw = "v" then (true, true, 1) else if tmw = "s" then (true, false, 2)
+      else if tmw = "e" then (false, true, 3) else (true, false, 0)
     match s.threadR t, tyInfo, s.strR nm, strs.mapM s.strR with
     | some t, some (c, f), some nm, some vals =>
       let (s, go) := s.outcome n out false false
@@ -749,7 +783,7 @@ def Spec.step (s : Spec) (n : Nat) (w : List String) (out : String) : Spec :=
       | none => s
       | some th =>
         let ustr := ((f.filter (· ≠ .n)).zip vals).filter (·.1 = .u) |>.map (·.2)
-        (s.modThread t (fun th => { th with markers := th.markers ++ [⟨nm, c, none, ustr⟩] })).setReg d
+        (s.modThread t (fun th => { th with markers := th.markers ++ [⟨nm, c, none, ustr, timing⟩] })).setReg d
           (.marker t th.markers.length)
     | _, _, _, _ => skipped s
   | ["mstack", t, m, st] =>
@@ -839,7 +873,7 @@ def parseThread (ls : List String) : Except String (SerThread × List String) :=
     | none => bad lNA
     | some (na, rest) =>
     match rest with
-    | lMK :: lMkCat :: lMkName :: lMkStack :: lMkUstr :: rest =>
+    | lMK :: lMkCat :: lMkName :: lMkStack :: lMkStart :: lMkEnd :: lMkPhase :: lMkUstr :: rest =>
       let r : Option SerThread := do
         let tw ← tagged "thread" lt
         let (pid, tid, main, pn, nm) ← (match tw with
@@ -881,14 +915,17 @@ def parseThread (ls : List String) : Except String (SerThread × List String) :=
           mkLen := mkLen, mkCols := mkCols,
           mkCat := ← (tagged "MK.cat" lMkCat).bind nats?, mkName := ← (tagged "MK.name" lMkName).bind nats?,
           mkStack := ← (tagged "MK.stack" lMkStack).bind opts?,
-          mkUstr := ← (tagged "MK.ustr" lMkUstr).bind (·.mapM parseUstr) }
+          mkUstr := ← (tagged "MK.ustr" lMkUstr).bind (·.mapM parseUstr),
+          mkStart := ← (tagged "MK.start" lMkStart).bind (·.mapM flag?),
+          mkEnd := ← (tagged "MK.end" lMkEnd).bind (·.mapM flag?),
+          mkPhase := ← (tagged "MK.phase" lMkPhase).bind nats? }
       match r with
       | some t => .ok (t, rest)
       | none =>
         -- name the first line that does not parse (a missing column prints `x` / `missing` / `?`)
         let all := [lt, lS, lFT, lFunc, lCat, lSub, lLine, lCol, lAddr, lNsym, lDepth, lFN, lFnName, lFnFlags, lFnRes,
           lFnFile, lRT, lRtLib, lRtName, lNS, lNsAddr, lNsSize, lNsLib, lNsName, lST, lStPre, lStFrame, lSA, lSaStack,
-          lNA, lMK, lMkCat, lMkName, lMkStack, lMkUstr]
+          lNA, lMK, lMkCat, lMkName, lMkStack, lMkStart, lMkEnd, lMkPhase, lMkUstr]
         let culprit := all.find? (fun l => (words l).any (fun w => w = "x" || w = "?" || w = "missing" || w.endsWith ":x" || w.endsWith ":noschema"))
         .error s!"a table column is missing or malformed in thread `{lt}`: `{culprit.getD "?"}`"
     | _ => .error "truncated thread tables"
@@ -1068,9 +1105,13 @@ def checkThreadCanonical (sp : Spec) (s : SerProfile) (h : Nat) : Option String 
             let cat := ((st.mkCat[i]?).bind (s.cats[·]?)).map (fun c => (c.1, c.2.1))
             let stack := (st.mkStack[i]?).bind (decodeOptStack s st)
             let ustr := ((st.mkUstr.filter (·.1 = i)).mapM (fun iv => st.strings[iv.2]?))
-            !(name = some m.name && cat = some m.cat && stack = some m.stack && ustr = some m.ustr))
+            let timing := match st.mkStart[i]?, st.mkEnd[i]?, st.mkPhase[i]? with
+              | some a, some b, some ph => some (a, b, ph)
+              | _, _, _ => none
+            !(name = some m.name && cat = some m.cat && stack = some m.stack && ustr = some m.ustr
+              && timing = some m.timing))
         match badm with
-        | some i => some s!"tid={th.tid}: marker {i} does not carry the name / category / stack / strings the caller supplied"
+        | some i => some s!"tid={th.tid}: marker {i} does not carry the name / category / stack / strings / timing the caller supplied"
         | none => none
 
 /-- every frame handle denotes, after serialization, the frame the caller described — whether or not a
